@@ -124,6 +124,32 @@ def main():
             gap = rng.choice([10, 10, 10, 20])
             t1 += gap; t2 += gap
         cases.append(case([o1, o2], evs, rels=[{"rel": "same_on", "x": 1, "y": 2}]))
+    # ---- an update() that raises half-way (division by a sample that is 0: operators of earlier branches are already stepped, the
+    # inputs stored) and then reset(): the monitor must be as new (seed C10-i; dense time: the stale samples of the failed call)
+    for i in range(n // 10):
+        a_ = pred(rng.choice(["ge", "le"]), var("x"), const(rng.choice([0, 2])))
+        left = rng.choice([lambda: un("once", a_), lambda: un("hist", a_), lambda: un("onceT", a_, 0, 2), lambda: bi("since", a_, pred("ge", var("y"), un("neg", const(1)))),
+                           lambda: un("prev", a_)])()
+        quo = pred(rng.choice(["ge", "le"]), bi("div", var("x"), var("y")), const(rng.choice([0, 1, 2])))
+        phi = bi(rng.choice(["and", "or"]), left, quo)
+        vs = ["x", "y"]
+        good = lambda: {"x": rng.choice([-4, -2, 0, 2, 4]), "y": rng.choice([-2, -1, 1, 2])}
+        fac = rng.choice(["StlDiscreteTimeSpecification", "StlDiscreteTimeOnlineSpecification"])
+        o1 = dt_obj(phi, 1, vs, factory=fac, period=10, tol=1, tS=10); o2 = dt_obj(phi, 1, vs, factory=fac, period=10, tol=1, tS=10)
+        evs = [ev_parse(1)]
+        t = 0
+        for k in range(rng.choice([0, 0, 1, 2, 3])):
+            evs.append(ev_update(t, good(), 1)); t += 10
+        bad_ = good(); bad_["y"] = 0; bad_["x"] = rng.choice([4, -4])
+        evs += [ev_update(t, bad_, 1), ev_reset(1), ev_parse(2)]
+        part = rng.random() < 0.4
+        t = 0
+        for k in range(rng.choice([2, 3, 5])):
+            sk = good()
+            if part and k == 0:
+                sk = {"y": sk["y"]}            # x left out right after the reset: it must be the default 0, not the value of the failed call
+            evs += [ev_update(t, sk, 1), ev_update(t, dict(sk), 2)]; t += 10
+        cases.append(case([o1, o2], evs, rels=[{"rel": "same_on", "x": 1, "y": 2}]))
     # ---- dense-time online: a reset monitor = a fresh one (new signal from time 0 after the reset)
     import c05 as _c05
     dcases = []
@@ -153,6 +179,28 @@ def main():
         evs += _c05.schedule_events(w2, sc, 1) + _c05.schedule_events(w2, sc, 2)
         fac = rng.choice(["StlDenseTimeSpecification", "StlDenseTimeOnlineSpecification"])
         dcases.append(case([ct_obj(phi, S, vs, factory=fac), ct_obj(phi, S, vs, factory=fac)], evs, [{"rel": "same_fn", "x": 1, "y": 2}]))
+    for i in range(n // 12):
+        a_ = pred(rng.choice(["ge", "le"]), var("x"), const(rng.choice([0, 2])))
+        left = rng.choice([lambda: un("once", a_), lambda: un("hist", a_), lambda: un("onceT", a_, 0, 2), lambda: a_])()
+        quo = pred(rng.choice(["ge", "le"]), bi("div", var("x"), var("y")), const(rng.choice([0, 1, 2])))
+        phi = bi(rng.choice(["and", "or"]), left, quo)
+        vs = ["x", "y"]
+        def sigs(poison):
+            end = rng.choice([2, 3, 4])
+            ts = sorted(set([0, end] + rng.sample(range(1, end), rng.choice([0, 1]))))
+            w_ = {"x": [[t_, rng.choice([-4, -2, 0, 2, 4])] for t_ in ts], "y": [[t_, rng.choice([-2, -1, 1, 2])] for t_ in ts]}
+            if poison:
+                w_["y"][rng.randrange(len(ts))][1] = 0
+            return w_
+        fac = rng.choice(["StlDenseTimeSpecification", "StlDenseTimeOnlineSpecification"])
+        evs = [ev_parse(1), ev_parse(2), ev_ct("update", sigs(True), 1), ev_reset(1)]
+        w2 = sigs(False)
+        if rng.random() < 0.5:
+            # after the reset the first call brings y only: x must not come from the failed call's leftovers
+            evs += [ev_ct("update", {"y": w2["y"]}, 1), ev_ct("update", {"x": w2["x"]}, 1), ev_ct("update", {"y": w2["y"]}, 2), ev_ct("update", {"x": w2["x"]}, 2)]
+        else:
+            evs += [ev_ct("update", w2, 1), ev_ct("update", w2, 2)]
+        dcases.append(case([ct_obj(phi, 1, vs, factory=fac), ct_obj(phi, 1, vs, factory=fac)], evs, [{"rel": "same_fn", "x": 1, "y": 2}]))
     dtr = runner.run_cases(dcases)
     dvs, dgen, ddist = core.validate("C10_dense", dtr, module="TraceCt")
     rep.add_traces(dtr, dvs, dgen, ddist, nontrivial_key=lambda c: c["objs"][0]["text"] + str([e.get("w") for e in c["events"]]))
